@@ -103,9 +103,12 @@ package olla
 //@   modifies *
 //@   loop 1 invariant !ghost(w).started && rtCount == old(rtCount) + 1 && recSuccess == old(recSuccess) && recFailure == old(recFailure)
 //@   loop 2 invariant !ghost(w).started && rtCount == old(rtCount) + 1 && recSuccess == old(recSuccess) && recFailure == old(recFailure)
+//@   ensures !ghost(w).started ==> ghost(w).hdr == old(ghost(w).hdr)
+//@   ensures !ghost(w).started ==> len(ghost(w).hdr["Content-Type"]) == old(len(ghost(w).hdr["Content-Type"]))
 //@   ensures res != nil && (connErr(res) || circuitOpen(res)) ==> !ghost(w).started
 //@   replay proxy_success_on_error_status@internal/adapter/proxy
 //@   at call RecordSuccess 1 assert resp.StatusCode < 400
+//@   at call IsOpen 1 assert len(ghost(w).hdr["Content-Type"]) == old(len(ghost(w).hdr["Content-Type"]))
 //@   ensures recSuccess + recFailure == old(recSuccess) + old(recFailure) + 1
 //@   ensures res == nil ==> recSuccess == old(recSuccess) + 1 && rtCount == old(rtCount) + 1
 //@   ensures rtCount <= old(rtCount) + 1
@@ -144,6 +147,17 @@ package olla
 //@   ensures !errorsAs(res, "*core.ResponseStartedError") && !errorsIs(res, core.ErrCircuitOpen)
 
 // ---- C19, engine scope (same clause as the sherpa engine)
+// the per-endpoint attempt handed to the shared retry handler: it is proxyToSingleEndpoint, so it keeps the
+// ProxyFunc contract the retry loop relies on (requires about the captured s and rlog hold where the literal is made)
+//@ func (s *Service) ProxyRequestToEndpointsWithRetry$1
+//@   property C02 C05 C19
+//@   requires s != nil && s.BaseProxyComponents != nil && s.configuration != nil && w != nil && rlog != nil && r != nil && r.URL != nil && endpoint != nil && endpoint.URL != nil && stats != nil
+//@   requires !ghost(w).started && ghost(w).hdr != nil && breakersOK(s)
+//@   modifies *
+//@   ensures recSuccess + recFailure == old(recSuccess) + old(recFailure) + 1
+//@   ensures res != nil && (connErr(res) || circuitOpen(res)) ==> !ghost(w).started
+//@   ensures !ghost(w).started ==> ghost(w).hdr == old(ghost(w).hdr) && len(ghost(w).hdr["Content-Type"]) == old(len(ghost(w).hdr["Content-Type"]))
+
 //@ func (s *Service) ProxyRequestToEndpointsWithRetry
 //@   property C19
 //@   replay proxy_engine_stats_conservation@internal/adapter/proxy
@@ -151,3 +165,4 @@ package olla
 //@   modifies *
 //@   ensures reqCount == old(reqCount) + 1
 //@   ensures recSuccess + recFailure - (old(recSuccess) + old(recFailure)) == reqCount - old(reqCount)
+//@   ensures !ghost(w).started ==> ghost(w).hdr == old(ghost(w).hdr) && len(ghost(w).hdr["Content-Type"]) == old(len(ghost(w).hdr["Content-Type"]))
